@@ -181,3 +181,8 @@ PROFILES["C07"]["also_report"] = ["C05/commit-without-voter-majority", "C05/arit
 PROFILES["C01"]["also_report"] = ["C06/two-grants-in-term"]
 PROFILES["C07"]["rule"] = PROFILES["C07"]["rule"] + (" The C07 check also runs the non-voter profile of C05 and the commitment table AUX05 (see C05) and reports the classes "
                                                      "C05/commit-without-voter-majority and C05/arith-* as its own (a non-voter is never counted in commitment).")
+
+# C02 also runs the user-restore profile: after an operator override (a Restore that lost leadership half-way) servers
+# are repaired by snapshots that end below what they had applied; the committed-history oracles are off there, but
+# "what an FSM is handed next is the next entry of its server's own log" still is judged (seeded change C02-d)
+PROFILES["C02"]["scenarios"] = PROFILES["C02"]["scenarios"] + [s1("C20", quick_runs=700, quick_budget_s=20, thorough_budget_s=500)]
